@@ -148,7 +148,23 @@ func (g *G) SubText(kind string, flags uint, htype int) []byte {
 		sb.WriteString(m.Blank)
 		sb.WriteString(g.R.Pick([]string{"", "body", "\r\n", "X: y\r\n\r\n"}))
 		s = sb.String()
-	case "nameaddr", "fromval", "onecontact", "onepai", "contacts", "pais":
+	case "contacts", "pais":
+		// one or several header bodies, each ended by a line end and the start of the next line
+		nb := g.R.PickInt(1, 1, 2, 3, 4)
+		var sb strings.Builder
+		for i := 0; i < nb; i++ {
+			if g.R.Chance(1, 2) {
+				sb.WriteString(g.LWS(false) + g.NameAddrList(5, kind == "contacts"))
+			} else {
+				sb.WriteString(g.LWS(false) + g.NameAddr(kind == "contacts"))
+			}
+			sb.WriteString(g.WS(1))
+			if i+1 < nb {
+				sb.WriteString(g.Term())
+			}
+		}
+		s = sb.String() + g.Continuation()
+	case "nameaddr", "fromval", "onecontact", "onepai":
 		if g.R.Chance(1, 2) {
 			s = g.LWS(false) + g.NameAddrList(5, true)
 		} else {
